@@ -427,16 +427,31 @@ def r_cfgi(chk, unit_on, unit_off):
             chk.ok("R-CFGI.pure", where, "%s and everything it calls in the library only read, compare and throw" %
                    cf.pqn, key=pkey)
     # (same) per-function structure with the macro statements removed
+    def fkey(f, u=None, depth=0):
+        # lambdas of one (instantiated) function share a qualified name: qualify them by the enclosing function's
+        # key and their source position
+        k = f.qn + "|" + "|".join(p["type"] for p in f.decl["params"])
+        if f.decl.get("lambdaop"):
+            k += "|@%s:%s" % (f.decl.get("line"), f.decl.get("col"))
+            par = f.unit.func_of(f.decl["lambdaparent"]) if f.decl.get("lambdaparent") is not None else None
+            if par is None and f.decl.get("lambdaparent") is not None:
+                pd = f.unit.decls.get(f.decl["lambdaparent"])
+                if pd is not None:
+                    k += "|in " + pd["qn"] + "|" + "|".join(p["type"] for p in pd["params"])
+            elif par is not None and depth < 4:
+                k += "|in " + fkey(par, u, depth + 1)
+        return k
+
     off = {}
     for f in unit_off.funcs:
         if not f.dependent and f.in_lib():
-            off[f.qn + "|" + "|".join(p["type"] for p in f.decl["params"])] = f
+            off[fkey(f)] = f
     n_same = 0
     missing = 0
     for f in unit_on.funcs:
         if f.dependent or not f.in_lib():
             continue
-        g = off.get(f.qn + "|" + "|".join(p["type"] for p in f.decl["params"]))
+        g = off.get(fkey(f))
         if g is None:
             if f.name == "checkValidity" or f.decl.get("implicit"):
                 continue  # only instantiated when the checks are on
